@@ -618,9 +618,16 @@ def c05_override(R):
                 )
     R.need(n >= 6, f"only {n} explicit-metadata constructor calls found")
     fl = tree.func(SIMP, "_flatten_simplifier")
-    vdef = [st for st in walk_no_nested(fl) if isinstance(st, ast.Assign) and ast.unparse(st.targets[0]) == "variables"]
+    # the value passed as variables= to the final make_like, whatever the local is called
+    vkw = [util.kw(c, "variables") for c in ast.walk(fl) if isinstance(c, ast.Call) and isinstance(c.func, ast.Attribute) and c.func.attr == "make_like" and util.kw(c, "variables") is not None]
+    vname = vkw[0].id if len(vkw) == 1 and isinstance(vkw[0], ast.Name) else None
+    vdef = [st for st in walk_no_nested(fl) if isinstance(st, ast.Assign) and ast.unparse(st.targets[0]) == vname]
     R.check(
-        len(vdef) == 1 and "a.variables for a in args" in ast.unparse(vdef[0].value) and not any(isinstance(x, ast.comprehension) and x.ifs and "isinstance" not in ast.unparse(x.ifs[0]) for x in ast.walk(vdef[0].value)),
+        len(vdef) == 1
+        and (
+            util.alpha_eq(vdef[0].value, "frozenset(itertools.chain.from_iterable((a.variables for a in args if isinstance(a, claripy.ast.Base))))", fl)
+            or util.alpha_eq(vdef[0].value, "frozenset(itertools.chain.from_iterable((a.variables for a in args)))", fl)
+        ),
         tree.mod(SIMP),
         fl,
         "_flatten_simplifier: variables = union over all original arguments",
@@ -1195,12 +1202,21 @@ def c07_if(R):
 def c07_handle(R):
     tree = R.tree
     m = tree.mod(OPS)
-    fn = tree.func(OPS, "_handle_annotations")
+    fn, _ = util.canonicalise(
+        tree.func(OPS, "_handle_annotations"),
+        (
+            "ast_args = tuple(a for a in args if isinstance(a, claripy.ast.Base))",
+            "bad_eliminated = 0",
+            "for aa in ast_args: ...",
+            "for oa in aa._relocatable_annotations: ...",
+            "na = oa.relocate(aa, simp)",
+        ),
+    )  # locals named by role
     txt = ast.unparse(fn)
     loop = [st for st in fn.body if isinstance(st, ast.For)]
     R.need(len(loop) == 1 and ast.unparse(loop[0].iter) == "ast_args", "_handle_annotations: loop over AST arguments not found")
     R.check(
-        "tuple((a for a in args if isinstance(a, claripy.ast.Base)))" in txt or "a for a in args if isinstance(a, claripy.ast.Base)" in txt,
+        util.has_frag(fn, "(a for a in args if isinstance(a, claripy.ast.Base))", fn),
         m,
         fn,
         "every AST argument is considered",
@@ -1298,7 +1314,7 @@ def c07_new(R):
     fl = tree.func(SIMP, "_flatten_simplifier")
     first = fl.body[0]
     R.check(
-        isinstance(first, ast.If) and "not anno.relocatable" in ast.unparse(first.test) and "arg.annotations for arg in args" in ast.unparse(first.test)
+        isinstance(first, ast.If) and util.alpha_eq(first.test, "any((not anno.relocatable for anno in itertools.chain.from_iterable((arg.annotations for arg in args))))", fl)
         and isinstance(first.body[0], ast.Return) and isinstance(first.body[0].value, ast.Constant) and first.body[0].value.value is None,
         tree.mod(SIMP),
         fl,
@@ -1323,16 +1339,20 @@ def c07_resimp(R):
     fn = tree.func(path, "simplify")
     blk = [st for st in fn.body if isinstance(st, ast.If) and ast.unparse(st.test) == "expr.annotations"]
     R.need(len(blk) == 1, "simplify: annotation re-attachment block not found")
-    txt = ast.unparse(blk[0])
+    Fr = util.Frags(fn)
     R.check(
-        "a._relocatable_annotations for a in ast_args" in txt and "a for a in expr.annotations" in txt,
+        Fr.has("ast_args = tuple(a for a in expr.args if isinstance(a, Base))", blk[0])
+        and Fr.has(
+            "annotations = tuple(set(chain(chain.from_iterable(a._relocatable_annotations for a in ast_args), tuple(a for a in expr.annotations))))",
+            blk[0],
+        ),
         m,
         blk[0],
         "annotations to keep = the node's own + direct arguments' relocatable ones",
         "the set of annotations re-attached after simplification changed",
     )
     R.check(
-        "simplified.annotate(*annotations)" in txt and "annotations != simplified.annotations" in txt,
+        Fr.has("simplified = simplified.annotate(*annotations)", blk[0]) and Fr.has("annotations != simplified.annotations", blk[0]),
         m,
         blk[0],
         "they are re-attached when the simplified expression differs",
@@ -1591,19 +1611,33 @@ def c08_repl(R):
     R.check("{old.hash(): new}" in txt and "variable_set=old.variables" in txt, m, rp, "replace(): {old -> new}, pruned by old's variables",
             "replace() no longer substitutes exactly {old.hash(): new}", construct="replace mapping")
     rd = tree.func(REPL, "replace_dict")
-    rebuild = [st for st in ast.walk(rd) if isinstance(st, ast.If) and "is not" in ast.unparse(st.test) and "zip(ast.args, args" in ast.unparse(st.test)]
-    R.need(len(rebuild) == 1, "replace_dict: rebuild condition not found")
-    b = ast.unparse(rebuild[0])
+    Fd = util.Frags(rd)
+    # the locals are fixed by their roles: the node being rebuilt, its new arguments, the result
+    Fd.has("ast = ast_queue.pop()")
+    Fd.has("args = rep_queue[-len(ast.args):]")
+    rebuild = [
+        st
+        for st in ast.walk(rd)
+        if isinstance(st, ast.If) and util.alpha_eq(st.test, "any((a is not b for a, b in zip(ast.args, args, strict=False)))", rd, dict(Fd.b))
+    ]
+    R.need(len(rebuild) == 1, "replace_dict: rebuild condition (some new argument is not the old one) not found")
     R.check(
-        "repl = ast.make_like(ast.op, tuple(args))" in b and "replacements[ast.hash()] = repl" in b,
+        Fd.has("repl = ast.make_like(ast.op, tuple(args))", rebuild[0]) and Fd.has("replacements[ast.hash()] = repl", rebuild[0]),
         m,
         rebuild[0],
         "a parent whose child changed is rebuilt with its own op and memoised under its own hash",
-        "replace_dict no longer rebuilds with ast.make_like(ast.op, tuple(args)) / memoises under ast.hash()",
+        "replace_dict no longer rebuilds with <node>.make_like(<node>.op, tuple(<new args>)) / memoises under <node>.hash()",
+        construct="replace_dict rebuild",
     )
-    look = [st for st in ast.walk(rd) if isinstance(st, ast.If) and ast.unparse(st.test) == "ast.hash() in replacements"]
+    Fl = util.Frags(rd)
+    Fl.has("ast = next(arg_queue[-1])")
     R.check(
-        len(look) == 1 and ast.unparse(look[0].body[0]) == "repl = replacements[ast.hash()]",
+        any(
+            isinstance(st, ast.If)
+            and util.alpha_eq(st.test, "ast.hash() in replacements", rd, dict(Fl.b))
+            and util.alpha_eq(st.body[0], "repl = replacements[ast.hash()]", rd, dict(Fl.b))
+            for st in ast.walk(rd)
+        ),
         m,
         rd,
         "a node is replaced by the entry under its own hash",
